@@ -163,6 +163,13 @@ func (bkt *Bucket) checkHintWithData(chunkID int) (err error) {
 	}
 	bkt.hints.Unlock()
 	hintDataSize := bkt.hints.loadHintsByChunk(chunkID)
+	if hintDataSize > size {
+		// the hint was dumped before its records were flushed and the process was
+		// killed in between: it points past the end of the data file, rebuild it
+		logger.Errorf("hint beyond data: bucket %d chunk %d hint datasize %d > data size %d, rebuild", bkt.ID, chunkID, hintDataSize, size)
+		bkt.hints.ClearChunk(chunkID)
+		hintDataSize = 0
+	}
 	if hintDataSize < size {
 		err = bkt.buildHintFromData(chunkID, hintDataSize)
 	}
